@@ -613,12 +613,20 @@ class Gen:
                 f = self.gen_function(cls, "method", name=oname, params=ps, const=False, indent=ind)
                 f["overload_set"] = oname
                 cls["methods"].append(f)
+        # a virtual with different final overriders in two bases must be overridden here (else ill-formed)
+        forced = set()
+        if len(bases) >= 2:
+            finals = {}
+            for b, _ in bases:
+                for nm, fq in self.final_overriders(b).items():
+                    finals.setdefault(nm, set()).add(fq)
+            forced = {nm for nm, qs in finals.items() if len(qs) > 1}
         # overrides of base virtuals
         for b, _ in bases:
             bc = self.classes[b]
-            for bm in bc["methods"]:
-                if bm.get("virtual") and r.random() < 0.6 and not bm.get("overload_set") and \
-                        bm["name"] not in [m["name"] for m in cls["methods"]]:
+            for bm in list(bc["methods"]) + [m for m in self.inherited_virtuals(b) if m["name"] in forced]:
+                if bm.get("virtual") and ((bm["name"] in forced and bm["cls"] != b) or r.random() < 0.6 or bm["name"] in forced) \
+                        and not bm.get("overload_set") and bm["name"] not in [m["name"] for m in cls["methods"]]:
                     ps = [dict(p) for p in bm["params"]]
                     f = self.gen_function(cls, "method", name=bm["name"], ret=bm["ret"], params=ps,
                                           const=bm["const"], virtual=True, indent=ind, override=True)
@@ -681,6 +689,29 @@ class Gen:
                 self.cx.append(f'extern "C" const char *vf_peek_{cid}_{m["name"]}(void *p) {{ return {acc}.c_str(); }}')
         cls["complete"] = True
         return cls
+
+    def final_overriders(self, q):
+        """virtual method name -> qname of the class providing the final overrider, as seen from class q"""
+        out = {}
+        c = self.classes[q]
+        for b in c["bases"]:
+            out.update(self.final_overriders(b["qname"]))
+        for m in c["methods"]:
+            if m.get("virtual") and m["kind"] == "method":
+                out[m["name"]] = q
+        return out
+
+    def inherited_virtuals(self, q):
+        """virtual methods of the ancestors of q that q itself does not declare (only used for forced overrides)"""
+        c = self.classes[q]
+        own = {m["name"] for m in c["methods"]}
+        out = []
+        for b in c["bases"]:
+            bc = self.classes[b["qname"]]
+            for m in bc["methods"] + self.inherited_virtuals(b["qname"]):
+                if m.get("virtual") and m["name"] not in own and m["name"] not in [x["name"] for x in out]:
+                    out.append(m)
+        return out
 
     def gen_operator(self, cls, op, ind):
         q = cls["qname"]
@@ -854,7 +885,12 @@ class Gen:
         fks = r.sample(fk, 2)
         if getattr(self, "ext", False) and "s" in fks and "b" not in fks:
             fks.append("b")
+        fseen = set()
         for kd in fks:
+            sg = tuple(("b" if (ch == "s" and not getattr(self, "strings", True)) else ch) for ch in (kd if kd != "none" else ""))
+            if sg in fseen:
+                continue       # two overloads may not differ in the return type only
+            fseen.add(sg)
             ps = []
             for j, ch in enumerate(kd if kd != "none" else ""):
                 t = {"i": T("int", c="int"), "f": T("float", c="double"), "b": T("bool"),
@@ -863,6 +899,26 @@ class Gen:
             f = self.gen_function(None, "free", name=oname, params=ps)
             f["overload_set"] = oname
             self.model["functions"].append(f)
+        if getattr(self, "opaque", False):
+            # classes without any published member, derived from published ones, reached only through signatures
+            for c in [c for c in own if not c.get("abstract") and not c.get("outer")][:2]:
+                n = r.randrange(10000)
+                inits = self.ctor_inits(dict(bases=[dict(qname=c["qname"], virtual=False)], members=[]))
+                at = max(i for i, l in enumerate(self.h) if l == "BEGIN_PUBLISH")     # outside the publish region
+                self.h.insert(at, f"class Opq{n} : public {c['qname']} {{ public: Opq{n}(){inits} {{}} int opq_v; }};")
+                self.h.append(f"Opq{n} *opq_make_{n}();")
+                self.h.append(f"int opq_use_{n}(const Opq{n} *p);")
+                self.cx.append(f"Opq{n} *opq_make_{n}() {{ return new Opq{n}(); }}")
+                self.cx.append(f"int opq_use_{n}(const Opq{n} *p) {{ return p ? 1 : 0; }}")
+                # an unpublished class BETWEEN two published ones
+                self.h.insert(at + 1, f"class OpqMid{n} : public {c['qname']} {{ public: OpqMid{n}(){inits.replace(c['qname'] + '(', c['qname'] + '(') } {{}} void internal_{n}(); int hidden_{n}; }};")
+                minits = self.ctor_inits(dict(bases=[dict(qname=c["qname"], virtual=False)], members=[]))
+                vb = [v for v in self.all_vbases(dict(bases=[dict(qname=c["qname"], virtual=False)]))]
+                leaf_inits = " : " + ", ".join([f"{v}(vf::PoolTag())" for v in vb] + [f"OpqMid{n}()"])
+                self.h.insert(at + 2, f"class OpqLeaf{n} : public OpqMid{n} {{ PUBLISHED: OpqLeaf{n}(); int get_leaf_{n}() const; }};")
+                self.cx.append(f"void OpqMid{n}::internal_{n}() {{}}")
+                self.cx.append(f"OpqLeaf{n}::OpqLeaf{n}(){leaf_inits} {{}}")
+                self.cx.append(f"int OpqLeaf{n}::get_leaf_{n}() const {{ return {n}; }}")
         if getattr(self, "oddities", False):
             # declarations with types interrogate cannot wrap or only partly knows (exercise remove_type, forward
             # declarations); they are not part of the model (nothing is claimed about them)
@@ -935,12 +991,13 @@ class Lib:
 
 
 def generate(rng, name="liba", size=1.0, docs=True, native=False, prior=None, dep_bases=(), n_classes=None,
-             adversarial=False, strings=True, ordering=False, oddities=False, arrays=True, ext=False):
+             adversarial=False, strings=True, ordering=False, oddities=False, arrays=True, ext=False, opaque=False):
     g = Gen(rng, name, size=size, docs=docs, native=native, prior=prior)
     g.strings = strings
     g.ordering = ordering
     g.oddities = oddities
     g.arrays = arrays
+    g.opaque = opaque
     g.ext = ext       # v2 features: bool overloads, MAKE_SEQ_PROPERTY, nested classes, hiding methods
     g.generate(n_classes=n_classes, dep_bases=dep_bases)
     return Lib(g)
